@@ -2463,7 +2463,12 @@ titdnFree(Stab stab, AbSyn absyn, TForm type)
 local Bool
 titdnHas(Stab stab, AbSyn absyn, TForm type)
 {
-	return titdn0Generic(stab, absyn, type);
+	if (!tfSatReturn(tfBoolean, type)) {
+		terrorNotUniqueType(ALDOR_E_TinExprMeans,
+				    absyn, type, abTPoss(absyn));
+		return false;
+	}
+	return titdn0Generic(stab, absyn, tfBoolean);
 }
 
 /***************************************************************************
